@@ -79,6 +79,33 @@ Section Signer.
 
   Definition sess_check := sess_check_with check_hex.
 
+  (** [refreshTTL] / [Sessions.NeedRefresh]: a fifth of the configured
+      lifetime (Go's integer division; zero when the lifetime is not positive). *)
+  Definition refresh_ttl (maxttl : Z) : Z := if maxttl <=? 0 then 0 else maxttl / 5.
+  Definition need_refresh (maxttl left : Z) : bool := left <? refresh_ttl maxttl.
+
+  (** ** Signed challenges (signer.go NewSignedChallenge / CheckChallenge)
+
+      The challenge is the JSON of a nonce and a timestamp, signed as a blob.
+      [chal_time] stands for [json.Unmarshal] into [timeutil.Challenge] followed
+      by [timeutil.Time]: the instant in the data, or [None] when there is none
+      (then the code reads the zero [time.Time], year 1). *)
+  Variable chal_time : bytes -> option Z.
+
+  Inductive ch_err := ChInvalid | ChFuture | ChExpired.
+
+  Definition zero_time_ns : Z := - 62135596800 * 1000000000.
+
+  Definition challenge_check (k : K) (w now : Z) (bs : bytes) : option ch_err :=
+    match check k bs with
+    | None => Some ChInvalid
+    | Some d =>
+        let t := match chal_time d with Some t => t | None => zero_time_ns end in
+        if now <? t then Some ChFuture
+        else if t + w <? now then Some ChExpired
+        else None
+    end.
+
   (** ** Time tokens (time_signer.go, time.go) *)
 
   Definition abs_window (w : Z) : Z := if w <? 0 then - w else w.
